@@ -234,7 +234,9 @@ func c03Seq(tier string) []SeqJob {
 		add("seq/unequal-costs+gets/max2/depth7", c03FromC13(c13EvictSpec(7)), 40)
 		add("seq/lean/max2/3keys/depth7", c03LeanSpec(7, 2), 40)
 		add("seq/lean/max3/4keys/depth7", c03LeanSpec(7, 3), 40)
+		add("seq/zero-costs/max2/depth8", c03FromC13(c13ZeroCostSpec(8)), 40)
 	} else {
+		add("seq/zero-costs/max2/depth10", c03FromC13(c13ZeroCostSpec(10)), 560)
 		add("seq/unequal-costs+gets/max2/depth10", c03FromC13(c13EvictSpec(10)), 560)
 		add("seq/lean/max2/3keys/depth10", c03LeanSpec(10, 2), 560)
 		add("seq/lean/max3/4keys/depth10", c03LeanSpec(10, 3), 560)
@@ -361,13 +363,34 @@ func c13EvictSpec(depth int) *SeqSpec {
 	}
 }
 
+// c13ZeroCostSpec: entries whose accounted cost is exactly 0 (no internal cost, no Cost function,
+// cost 0 given) next to one entry as large as the cache: "arbitrary non-negative costs". A zero
+// must not be mistaken for "absent" anywhere in the accounting.
+func c13ZeroCostSpec(depth int) *SeqSpec {
+	alpha := []Op{{K: "set", Key: 1, Cost: 0}, {K: "set", Key: 1, Cost: 1}, {K: "set", Key: 2, Cost: 2}, {K: "del", Key: 1}, {K: "drain"},
+		{K: "setttl", Key: 257, Cost: 0, TTL: 1000}, {K: "advance+sweep", N: 3000}}
+	return &SeqSpec{
+		Cfg:      Cfg{NumCounters: 16, MaxCost: 2, BufferItems: 1, SetBuf: 3, TTLTick: 2, BucketSecs: 1, MapOrder: "rot"},
+		MaxDepth: depth,
+		Alphabet: func(r *SeqRun) []Op { return alpha },
+		Oracle:   c13Oracle,
+		Probe: func(c seqCache, r *SeqRun) {
+			if allIdle(r.Post.ClientState) && len(r.Post.SetBufItems) == 0 {
+				iterProbe(c, r)
+			}
+		},
+	}
+}
+
 func c13Seq(tier string) []SeqJob {
 	var out []SeqJob
 	add := func(name string, s *SeqSpec, secs float64) { out = append(out, SeqJob{Name: name, Spec: s, Seconds: secs}) }
 	if tier == "quick" {
 		add("seq/unequal-costs+gets/max2/depth7", c13EvictSpec(7), 40)
+		add("seq/zero-costs/max2/depth6", c13ZeroCostSpec(6), 40)
 	} else {
 		add("seq/unequal-costs+gets/max2/depth10", c13EvictSpec(10), 560)
+		add("seq/zero-costs/max2/depth9", c13ZeroCostSpec(9), 560)
 	}
 	if tier == "quick" {
 		add("seq/setbuf1/max2/2keys/depth6", c13Spec(1, 2, []int{1, 257}, 6, true), 40)
